@@ -73,8 +73,8 @@ class Native:
     def run(self, case):
         return self.run_many([case])[0]
 
-    def cli(self, args, cwd, env=None, timeout=60, stdin=None):
-        e = {'PATH': os.environ.get('PATH', ''), 'HOME': cwd}
+    def cli(self, args, cwd, env=None, timeout=60, stdin=None, clear_env=False):
+        e = {} if clear_env else {'PATH': os.environ.get('PATH', ''), 'HOME': cwd}
         if env:
             e.update(env)
         r = subprocess.run([self.ucg_bin] + list(args), cwd=cwd, env=e, stdout=subprocess.PIPE, stderr=subprocess.PIPE, timeout=timeout, input=stdin)
